@@ -127,6 +127,9 @@ func main() {
 	}
 	r.curConfig = ""
 	runFixtures(r, *verif, p.Fixtures)
+	if *tier == "thorough" {
+		runGuarded(r, p.ID+":pinned-regression", func() { regressPinned(r, absRepo, p, kf) })
+	}
 	if p.Once != nil {
 		runGuarded(r, p.ID+":once", func() { p.Once(absRepo, r, *tier) })
 	}
